@@ -43,6 +43,9 @@ POLICIES = {
     "busy1": dict(fo_refuse_first=1),
     "busy2": dict(fo_refuse_first=2),
     # legal but unusual identifiers: session handles and connection ids with the top bit set, and the smallest ones
+    # Forward Opens refused with general statuses outside the documented ones (vendor specific 0xD0 for the large one, reserved 0x20 for both)
+    "fo_d0": dict(large_fo="refuse:d0"),
+    "fo_20": dict(large_fo="refuse:20", std_fo="refuse:20"),
     "hiids": dict(session_handles=[0x80000001, 0xFFFFFFFE, 0x7FFFFFFF, 0x80000000], conn_ids=[0x80000000, 0xFFFFFFFF, 0x00000001, 0x7FFFFFFF]),
 }
 FAULT_KINDS = ("send_err", "send_partial", "recv_err", "recv_close", "recv_trunc", "reply_lost", "send_timeout")
@@ -339,15 +342,45 @@ def fmt(hist):
 
 
 def shards(tier, seed):
-    return [("search", drv, pol) for drv in DRIVERS for pol in POLICIES] + [("search", "m800", pol) for pol in M800_POLICIES] + [("search", "cip", "ok", "python-O"), ("search", "logix_noinit", "large08", "python-O"), ("search", "slc", "ok", "python-O"), ("search", "logix_noinit", "ok", "debuglog"), ("search", "cip", "large08", "debuglog"), ("search", "slc", "nofclose", "debuglog")]
+    return [("search", drv, pol) for drv in DRIVERS for pol in POLICIES] + [("search", "m800", pol) for pol in M800_POLICIES] + [("longrun", drv) for drv in ("cip", "logix_noinit", "slc")] + [("search", "cip", "ok", "python-O"), ("search", "logix_noinit", "large08", "python-O"), ("search", "slc", "ok", "python-O"), ("search", "logix_noinit", "ok", "debuglog"), ("search", "cip", "large08", "debuglog"), ("search", "slc", "nofclose", "debuglog")]
 
 
 def describe(tier, seed):
     return {"bounds": {"depth": 4 if tier == "thorough" else 3, "faults_per_history": 2 if tier == "thorough" else 1, "fault_kinds": FAULT_KINDS, "drivers": DRIVERS, "policies": list(POLICIES)}, "exhaustive": True}
 
 
+def run_longrun(rep, drv):
+    """One driver object over its whole life: 66 000 connected messages spread over several open / close cycles (the sequence counter comes
+    round once), then the usual questions - only library exceptions, not connected after close, nothing left at the target, open works again."""
+    r = Run(drv, "ok")
+    r.w.io_budget = 10**9
+    bad = None
+    n = 0
+    for cyc in range(4):
+        o = call(r.d.open)
+        for i in range(16500):
+            out = call(r.d.generic_message, service=1, class_code=1, instance=1) if drv == "cip" else call(r.d.read, "N7:0" if drv == "slc" else "a_dint")
+            n += 1
+            if out[0] != "ok" or not bool(out[1]):
+                bad = (n, out)
+                break
+        c = call(r.d.close)
+        if bad or o != ("ok", True) or c[0] != "ok" or r.d.connected or r.t.sessions or r.t.connections:
+            bad = bad or (n, ("open/close", o, c, r.d.connected, len(r.t.sessions), len(r.t.connections)))
+            break
+    flagged = [e for e in r.t.events if e[0].startswith("C10/I1")]
+    rep.case(("longrun", drv), outcome="ok" if not bad and not flagged else "bad", calls=n)
+    if bad or flagged:
+        rep.violation(f"long-run/{drv}", f"{drv}: connected request #{bad[0] if bad else '?'} in the life of one driver object (4 open/close cycles): {(bad[1] if bad else flagged[0])!r:.160}", {"drv": drv, "pol": "ok", "hist": [], "longrun": True})
+    r.close_world()
+    rep.sample({"long_run": drv, "requests": n})
+
+
 def run_shard(shard, tier, seed):
     rep = Report()
+    if shard[0] == "longrun":
+        run_longrun(rep, shard[1])
+        return rep
     _, drv, pol = shard
     depth, faults = (4, 2) if tier == "thorough" else (3, 1)
     if tier == "thorough" and drv == "logix_upload":
@@ -361,6 +394,12 @@ def run_shard(shard, tier, seed):
 
 
 def replay(r):
+    if r.get("longrun"):
+        rep = Report()
+        run_longrun(rep, r["drv"])
+        for s_, vs in rep.violations.items():
+            print("  violates:", s_, "::", vs[0].msg[:300])
+        return not rep.violations
     hist = tuple((e, tuple(f) if f else None) for e, f in r["hist"])
     run = replay_hist(r["drv"], r["pol"], hist)
     print("history :", fmt(hist), "driver", r["drv"], "policy", r["pol"])
